@@ -255,9 +255,11 @@ def saslprep_oracle(ctx, first_only=False):
     o_sasl = Oracle(ctx, "saslprep-vs-rfc4013")
     pool = ["a", "Z", "9", " ", "\u00a0", "\u1680", "\u3000", "\u00ad", "\u200b", "\u200c", "\ufe0f", "\u2060", "\ufb01", "\u2460", "\u00aa", "\u0041\u030a", "\u212b",
             "\u0627", "\u0628", "\u05d0", "\u05d1", "\ufb1d", "\ufc5e", "\u0661", "\u06f1", "1", "\u0000", "\u007f", "\u0080", "\ue000", "\ufffe", "\ufeff", "\u0221", "\u0340",
-            "\u200e", "\u202a", "\ud7ff", "\U000e0001", "\U0001d11e", "\u00df", "\u0130", "\u03c2", "x"]
+            "\u200e", "\u202a", "\ud7ff", "\U000e0001", "\U0001d11e", "\u00df", "\u0130", "\u03c2", "x",
+            # standalone combining marks and conjoining jamo: with a mapped-to-nothing character in between, the order map -> normalise shows
+            "e", "\u0301", "\u0308", "\u0323", "\u030a", "\u1100", "\u1161", "\u11a8", "\u200d", "\ufe00"]
     fixed = ["", "\u0627\u0628\u00ad", "\u0627\ufc5e", "\ufb1d", "\u0627a\u0628", "a\u0627", "\u0627 1 \u0628", "\u00ad", "\u00ad\u00ad", "\u0627\u200c", "\u05d0\ufe0f", "I\u00adX",
-             "\u2168", "user\u00a0name"]
+             "\u2168", "user\u00a0name", "cafe\u00ad\u0301", "e\u200d\u0301", "\u1100\u200b\u1161", "\u1100\u1161\ufe0f\u11a8", "a\u00ad\u030a\u200b\u0323", "I\u2764\ufe0fU"]
     for t in fixed + ["".join(rng.choice(pool) for _ in range(rng.randrange(1, 7))) for _ in range(1500 if not ctx.thorough else 40000)]:
         try:
             want = ("ok", py_saslprep(t))
